@@ -636,19 +636,19 @@ theorem lemma_invF_ok (s : St) (h : InvF s) (hw : InvW s) (hr : s.rpc = .returne
   have hno : s.body.contains Chunk.other = false := by simpa using w1
   obtain ⟨_, hrec⟩ := h1 hr
   rcases h4 with h4 | h4 | h4
-  · obtain ⟨_, _, a3, _, _, _, a7⟩ := h4
+  · obtain ⟨a1, _, a3, _, _, _, a7⟩ := h4
     have hnot : s.body.contains Chunk.t408 = false := by simpa using a3
     have hcnt : s.body.count Chunk.t408 = 0 := List.count_eq_zero.mpr a3
     have hst : s.status ≠ some Chunk.t408 := fun hs => a3 (w2 hs)
-    simp only [timeoutOK, obsOf, h3, hnot, hcnt, hrec]
+    simp only [timeoutOK, obsOf, h3, hnot, hcnt, hrec, a1]
     cases hp : s.panicChan.isSome
     · simp [w1, hst]
     · rcases a7 hr hp with hh | hh
       · simp [hh, w1, hst]
       · simp [hh, w1]
   · simp [hr] at h4
-  · obtain ⟨_, _, _, hb, hs⟩ := h4
-    simp [timeoutOK, obsOf, h3, hb, hs, hrec]
+  · obtain ⟨c1, _, _, hb, hs⟩ := h4
+    simp [timeoutOK, obsOf, h3, hb, hs, hrec, c1]
     cases s.panicChan <;> simp
 
 /-- **Exactly one well-formed response.** For every handler program and every schedule of request
@@ -717,6 +717,90 @@ theorem timeout_never_interleaved (waitH : Hooks) (prog : List HAct) (sched : Li
   · have : s.body = [] := h.2.2.2.1
     simp [this] at hm
   · exact ⟨h.2.2.2.1, h.2.2.2.2⟩
+
+/-! ### the liveness half of "exactly one response": an overrun is answered, and only the timeout handler answers it -/
+
+/-- once the guard is claimed it stays claimed -/
+theorem lemma_step_timedOut_mono (waitH : Hooks) (s : St) (t : Tok) (h : s.timedOut = true) :
+    (step waitH s t).timedOut = true := by
+  cases t with
+  | h =>
+    show (stepH s).timedOut = true
+    unfold stepH
+    split
+    · exact h
+    · split
+      all_goals (try split)
+      all_goals simp [St.write, h]
+  | rd =>
+    show (stepR waitH true s).timedOut = true
+    unfold stepR finishR
+    repeat' split
+    all_goals simp_all [St.write]
+  | rc =>
+    show (stepR waitH false s).timedOut = true
+    unfold stepR finishR
+    repeat' split
+    all_goals simp_all [St.write]
+  | dl => exact h
+  | pc => exact h
+
+theorem lemma_run_timedOut_mono (waitH : Hooks) (sched : List Tok) (s : St) (h : s.timedOut = true) :
+    (run waitH sched s).timedOut = true := by
+  induction sched generalizing s with
+  | nil => exact h
+  | cons t ts ih => exact ih _ (lemma_step_timedOut_mono waitH s t h)
+
+/-- **The response is the timeout response iff the guard was claimed.** For every program and schedule, once
+    `ServeHTTP` has returned: the timeout body is in the response iff the middleware claimed the response at the
+    deadline, and then the response is exactly the timeout response (status 408, body = the one 408 document) -/
+theorem timeout_response_iff_claimed (waitH : Hooks) (prog : List HAct) (sched : List Tok) :
+    let s := run waitH sched (init prog)
+    s.rpc = .returned →
+      (Chunk.t408 ∈ s.body ↔ s.timedOut = true) ∧
+      (s.timedOut = true → s.body = [Chunk.t408] ∧ s.status = some Chunk.t408) := by
+  intro s hr
+  have h := (lemma_t_run_induct waitH InvF (lemma_step_invF waitH) sched _ (lemma_init_invF prog)).2.2.2
+  rcases h with h | h | h
+  · have hf : s.timedOut = false := h.1
+    refine ⟨⟨fun hm => absurd hm h.2.2.1, fun ht => ?_⟩, fun ht => ?_⟩
+    · rw [hf] at ht; cases ht
+    · rw [hf] at ht; cases ht
+  · have : s.rpc = .thandler := h.2.1
+    rw [this] at hr; cases hr
+  · exact ⟨⟨fun _ => h.1, fun _ => by rw [h.2.2.2.1]; simp⟩, fun _ => ⟨h.2.2.2.1, h.2.2.2.2⟩⟩
+
+/-- **An overrun is answered.** Whenever the request goroutine reaches its timeout decision (`tw.timeout()`, the
+    step out of `RPc.logging`) while the chain has not started the response — the deadline passed on an untouched
+    response — and its hooks let it proceed, the response of the request, when `ServeHTTP` returns, is exactly the
+    timeout response: whatever the handler does afterwards, however the rest is scheduled. -/
+theorem timeout_answers_overrun (waitH : Hooks) (prog : List HAct) (s1 s2 : List Tok) (pd : Bool) :
+    let mid := run waitH s1 (init prog)
+    let fin := run waitH s2 (stepR waitH pd mid)
+    mid.rpc = .logging → mid.started = false → (waitH.waitL && !mid.hGo) = false →
+    fin.rpc = .returned → fin.body = [Chunk.t408] ∧ fin.status = some Chunk.t408 := by
+  intro mid fin hlog hst hgo hret
+  have hclaim : (stepR waitH pd mid).timedOut = true := by
+    simp [stepR, hlog, hgo, hst]
+  have hto : fin.timedOut = true := lemma_run_timedOut_mono waitH s2 _ hclaim
+  -- `fin` is the run of the schedule s1 ++ [r] ++ s2
+  have hfin : fin = run waitH (s1 ++ (if pd then Tok.rd else Tok.rc) :: s2) (init prog) := by
+    show run waitH s2 (stepR waitH pd mid) = _
+    unfold run
+    rw [List.foldl_append, List.foldl_cons]
+    cases pd <;> rfl
+  have := timeout_response_iff_claimed waitH prog (s1 ++ (if pd then Tok.rd else Tok.rc) :: s2)
+  simp only [] at this
+  rw [← hfin] at this
+  exact (this hret).2 hto
+
+/-- non-vacuity: the decision point is reached on an untouched response, the handler writes and panics afterwards -/
+example :
+    let prog : List HAct := [.fireDl, .awaitCtx, .awaitE, .write, .panic 1]
+    let mid := run false [.h, .h, .rc] (init prog)
+    mid.rpc = .logging ∧ mid.started = false ∧
+    (run false [.rc, .h, .h, .h, .rd] (stepR false false mid)).rpc = .returned ∧
+    (run false [.rc, .h, .h, .h, .rd] (stepR false false mid)).body = [.t408] := by decide
 
 /-- what the driver computes for a harness case (`fair`, the handler-first / request-first
     scheduler) is the run of *a* schedule — so every theorem above that quantifies over schedules
@@ -902,27 +986,27 @@ theorem last_duration_wins (opts : List Opt) (ms : Nat) (rest : List Opt)
 def InvS (s : St) : Prop :=
   s.releasedEarly = false ∧ Chunk.t408 ∉ s.body ∧ (s.started = true → Chunk.h ∈ s.body) ∧
   (s.started = false → s.body = [] ∧ s.status = none) ∧ s.panicChan = none ∧ s.recovered = none ∧
-  Chunk.other ∉ s.body ∧ s.status ≠ some Chunk.t408
+  Chunk.other ∉ s.body ∧ s.status ≠ some Chunk.t408 ∧ s.timedOut = false
 
 theorem lemma_runSkipped_ok (drop : Nat) (prog : List HAct) (s : St) (h : InvS s) :
     timeoutOK (obsOf (runSkipped drop prog s)) = true ∧ (runSkipped drop prog s).rpc = .returned ∧
     Chunk.t408 ∉ (runSkipped drop prog s).body := by
   induction prog generalizing drop s with
   | nil =>
-    obtain ⟨h1, h2, _, _, h5, h6, h7, h8⟩ := h
+    obtain ⟨h1, h2, _, _, h5, h6, h7, h8, h9⟩ := h
     have hcnt : s.body.count Chunk.t408 = 0 := List.count_eq_zero.mpr h2
-    cases drop <;> simp [runSkipped, timeoutOK, obsOf, h1, hcnt, h5, h6, h2, h7, h8]
+    cases drop <;> simp [runSkipped, timeoutOK, obsOf, h1, hcnt, h5, h6, h2, h7, h8, h9]
   | cons a r ih =>
     cases drop with
     | succ k => simp only [runSkipped]; exact ih k s h
     | zero =>
-      obtain ⟨h1, h2, h3, h4, h5, h6, h7, h8⟩ := h
+      obtain ⟨h1, h2, h3, h4, h5, h6, h7, h8, h9⟩ := h
       cases a with
       | write =>
         simp only [runSkipped]
         refine ih 0 _ ⟨by simpa [St.write] using h1, by simp [St.write, h2], fun _ => by simp [St.write],
           fun hf => by simp [St.write] at hf, by simpa [St.write] using h5, by simpa [St.write] using h6,
-          by simp [St.write, h7], ?_⟩
+          by simp [St.write, h7], ?_, by simpa [St.write] using h9⟩
         cases hst : s.status <;> simp_all [St.write]
       | panic v =>
         simp only [runSkipped]
@@ -932,27 +1016,27 @@ theorem lemma_runSkipped_ok (drop : Nat) (prog : List HAct) (s : St) (h : InvS s
           cases hst : s.status <;> simp_all
         cases hst : s.started
         · have := h4 hst
-          simp [timeoutOK, obsOf, St.write, h1, this.1, this.2]
+          simp [timeoutOK, obsOf, St.write, h1, this.1, this.2, h9]
         · have := h3 hst
-          simp [timeoutOK, obsOf, St.write, h1, h2, hcnt, List.count_append, this, h7]
+          simp [timeoutOK, obsOf, St.write, h1, h2, hcnt, List.count_append, this, h7, h9]
           simpa using hs8
-      | fireDl => simp only [runSkipped]; exact ih 0 _ ⟨h1, h2, h3, h4, h5, h6, h7, h8⟩
-      | firePc => simp only [runSkipped]; exact ih 0 _ ⟨h1, h2, h3, h4, h5, h6, h7, h8⟩
-      | guard n => simp only [runSkipped]; exact ih _ s ⟨h1, h2, h3, h4, h5, h6, h7, h8⟩
-      | awaitCtx => simp only [runSkipped]; exact ih 0 s ⟨h1, h2, h3, h4, h5, h6, h7, h8⟩
-      | awaitL => simp only [runSkipped]; exact ih 0 s ⟨h1, h2, h3, h4, h5, h6, h7, h8⟩
-      | awaitE => simp only [runSkipped]; exact ih 0 s ⟨h1, h2, h3, h4, h5, h6, h7, h8⟩
-      | awaitT => simp only [runSkipped]; exact ih 0 s ⟨h1, h2, h3, h4, h5, h6, h7, h8⟩
-      | signalH => simp only [runSkipped]; exact ih 0 s ⟨h1, h2, h3, h4, h5, h6, h7, h8⟩
-      | awaitRet => simp only [runSkipped]; exact ih 0 s ⟨h1, h2, h3, h4, h5, h6, h7, h8⟩
-      | hold => simp only [runSkipped]; exact ih 0 s ⟨h1, h2, h3, h4, h5, h6, h7, h8⟩
+      | fireDl => simp only [runSkipped]; exact ih 0 _ ⟨h1, h2, h3, h4, h5, h6, h7, h8, h9⟩
+      | firePc => simp only [runSkipped]; exact ih 0 _ ⟨h1, h2, h3, h4, h5, h6, h7, h8, h9⟩
+      | guard n => simp only [runSkipped]; exact ih _ s ⟨h1, h2, h3, h4, h5, h6, h7, h8, h9⟩
+      | awaitCtx => simp only [runSkipped]; exact ih 0 s ⟨h1, h2, h3, h4, h5, h6, h7, h8, h9⟩
+      | awaitL => simp only [runSkipped]; exact ih 0 s ⟨h1, h2, h3, h4, h5, h6, h7, h8, h9⟩
+      | awaitE => simp only [runSkipped]; exact ih 0 s ⟨h1, h2, h3, h4, h5, h6, h7, h8, h9⟩
+      | awaitT => simp only [runSkipped]; exact ih 0 s ⟨h1, h2, h3, h4, h5, h6, h7, h8, h9⟩
+      | signalH => simp only [runSkipped]; exact ih 0 s ⟨h1, h2, h3, h4, h5, h6, h7, h8, h9⟩
+      | awaitRet => simp only [runSkipped]; exact ih 0 s ⟨h1, h2, h3, h4, h5, h6, h7, h8, h9⟩
+      | hold => simp only [runSkipped]; exact ih 0 s ⟨h1, h2, h3, h4, h5, h6, h7, h8, h9⟩
 
 /-- **Skipped requests.** A request the options exempt is served straight through: it returns, its response never
     contains a timeout body, and the single-response oracle holds — for every program. -/
 theorem skipped_single_response (prog : List HAct) :
     let s := runSkipped 0 prog (init prog)
     timeoutOK (obsOf s) = true ∧ s.rpc = .returned ∧ Chunk.t408 ∉ s.body :=
-  lemma_runSkipped_ok 0 prog (init prog) ⟨rfl, by simp [init], by simp [init], fun _ => ⟨rfl, rfl⟩, rfl, rfl, by simp [init], by simp [init]⟩
+  lemma_runSkipped_ok 0 prog (init prog) ⟨rfl, by simp [init], by simp [init], fun _ => ⟨rfl, rfl⟩, rfl, rfl, by simp [init], by simp [init], rfl⟩
 
 example :
     let opts := [Opt.skipPrefix ["/adm".toList], .duration 5, .skip (some false), .skipPaths ["/t".toList]]
@@ -965,12 +1049,12 @@ example :
     response so far — what `runSkipped` computes, without the machine state around it -/
 def seqObs : Nat → List HAct → Ctx → Option Chunk → List Chunk → TObs
   | _, [], _, st, b =>
-    { status := st, body := b, escaped := false, releasedEarly := false, hPanicked := false, recovered := false }
+    { status := st, body := b, escaped := false, releasedEarly := false, hPanicked := false, recovered := false, claimed := false }
   | d+1, _ :: r, c, st, b => seqObs d r c st b
   | 0, .write :: r, c, st, b => seqObs 0 r c (st.or (some .h)) (b ++ [.h])
   | 0, .panic _ :: _, _, st, b =>
     { status := st.or (some .rec500), body := b ++ [.rec500], escaped := false, releasedEarly := false,
-      hPanicked := true, recovered := true }
+      hPanicked := true, recovered := true, claimed := false }
   | 0, .fireDl :: r, c, st, b => seqObs 0 r (if c = .live then .deadline else c) st b
   | 0, .firePc :: r, c, st, b => seqObs 0 r (if c = .live then .cancelled else c) st b
   | 0, .guard n :: r, c, st, b => seqObs (if c = .live then 0 else n) r c st b
@@ -983,29 +1067,30 @@ def seqObs : Nat → List HAct → Ctx → Option Chunk → List Chunk → TObs
   | 0, .hold :: r, c, st, b => seqObs 0 r c st b
 
 theorem lemma_runSkipped_seqObs (d : Nat) (p : List HAct) (s : St) (h1 : s.panicChan = none) (h2 : s.recovered = none)
-    (h3 : s.releasedEarly = false) : obsOf (runSkipped d p s) = seqObs d p s.ctx s.status s.body := by
+    (h3 : s.releasedEarly = false) (h4 : s.timedOut = false) :
+    obsOf (runSkipped d p s) = seqObs d p s.ctx s.status s.body := by
   induction p generalizing d s with
-  | nil => cases d <;> simp [runSkipped, seqObs, obsOf, h1, h2, h3]
+  | nil => cases d <;> simp [runSkipped, seqObs, obsOf, h1, h2, h3, h4]
   | cons a r ih =>
     cases d with
-    | succ k => simp only [runSkipped, seqObs]; exact ih k s h1 h2 h3
+    | succ k => simp only [runSkipped, seqObs]; exact ih k s h1 h2 h3 h4
     | zero =>
       cases a with
       | write =>
         simp only [runSkipped, seqObs]
-        rw [ih 0 _ (by simpa [St.write] using h1) (by simpa [St.write] using h2) (by simpa [St.write] using h3)]
+        rw [ih 0 _ (by simpa [St.write] using h1) (by simpa [St.write] using h2) (by simpa [St.write] using h3) (by simpa [St.write] using h4)]
         simp [St.write]
-      | panic v => simp [runSkipped, seqObs, obsOf, St.write, h3]
-      | fireDl => simp only [runSkipped, seqObs]; exact ih 0 _ h1 h2 h3
-      | firePc => simp only [runSkipped, seqObs]; exact ih 0 _ h1 h2 h3
-      | guard n => simp only [runSkipped, seqObs]; exact ih _ s h1 h2 h3
-      | awaitCtx => simp only [runSkipped, seqObs]; exact ih 0 s h1 h2 h3
-      | awaitL => simp only [runSkipped, seqObs]; exact ih 0 s h1 h2 h3
-      | awaitE => simp only [runSkipped, seqObs]; exact ih 0 s h1 h2 h3
-      | awaitT => simp only [runSkipped, seqObs]; exact ih 0 s h1 h2 h3
-      | signalH => simp only [runSkipped, seqObs]; exact ih 0 s h1 h2 h3
-      | awaitRet => simp only [runSkipped, seqObs]; exact ih 0 s h1 h2 h3
-      | hold => simp only [runSkipped, seqObs]; exact ih 0 s h1 h2 h3
+      | panic v => simp [runSkipped, seqObs, obsOf, St.write, h3, h4]
+      | fireDl => simp only [runSkipped, seqObs]; exact ih 0 _ h1 h2 h3 h4
+      | firePc => simp only [runSkipped, seqObs]; exact ih 0 _ h1 h2 h3 h4
+      | guard n => simp only [runSkipped, seqObs]; exact ih _ s h1 h2 h3 h4
+      | awaitCtx => simp only [runSkipped, seqObs]; exact ih 0 s h1 h2 h3 h4
+      | awaitL => simp only [runSkipped, seqObs]; exact ih 0 s h1 h2 h3 h4
+      | awaitE => simp only [runSkipped, seqObs]; exact ih 0 s h1 h2 h3 h4
+      | awaitT => simp only [runSkipped, seqObs]; exact ih 0 s h1 h2 h3 h4
+      | signalH => simp only [runSkipped, seqObs]; exact ih 0 s h1 h2 h3 h4
+      | awaitRet => simp only [runSkipped, seqObs]; exact ih 0 s h1 h2 h3 h4
+      | hold => simp only [runSkipped, seqObs]; exact ih 0 s h1 h2 h3 h4
 
 /-- no deadline and no cancel can happen: neither the program nor the schedule produces one -/
 def quietProg (p : List HAct) : Prop := ∀ a ∈ p, a ≠ .fireDl ∧ a ≠ .firePc
@@ -1031,7 +1116,7 @@ theorem lemma_stepH_invQ (T : TObs) (s : St) (h : InvQ T s) : InvQ T (stepH s) :
       rw [hstep]
       refine ⟨hc, ht, by simpa using hq, Or.inr (Or.inl ⟨hr, rfl, hrec, ?_⟩)⟩
       rw [← hobs]
-      simp [finishR, hp, obsOf, seqObs, hrec]
+      simp [finishR, hp, obsOf, seqObs, hrec, ht]
     | cons a r =>
       rw [hprog] at hobs hq
       have hq' := lemma_quiet_tail hq
@@ -1123,7 +1208,7 @@ theorem timeout_transparent_when_quiet (waitH : Hooks) (prog : List HAct) (sched
     (run waitH sched (init prog)).rpc = .returned →
       obsOf (run waitH sched (init prog)) = obsOf (runSkipped 0 prog (init prog)) := by
   intro hret
-  rw [lemma_runSkipped_seqObs 0 prog (init prog) rfl rfl rfl]
+  rw [lemma_runSkipped_seqObs 0 prog (init prog) rfl rfl rfl rfl]
   have h0 : InvQ (seqObs 0 prog .live none []) (init prog) :=
     ⟨rfl, rfl, hp, Or.inl ⟨rfl, rfl, rfl, rfl, rfl, rfl⟩⟩
   have hstep : ∀ s t, (t ≠ Tok.dl ∧ t ≠ Tok.pc) → InvQ (seqObs 0 prog .live none []) s →
